@@ -550,7 +550,12 @@ class Facts:
 
     def _nonneg_top(self, L):
         L = self.apply_sub(L)
-        if self._nonneg(L, [self.apply_sub(g) for g in self.ge]):
+        if self._all_nonneg(L):
+            return True
+        # the combination heuristic only for small fact sets; Fourier-Motzkin below is the general method
+        if len(self.ge) <= 5 and self._nonneg(L, [self.apply_sub(g) for g in self.ge]):
+            return True
+        if len(self.ge) > 5 and self._all_nonneg(self._mod_eq(L)):
             return True
         # L >= 0 is implied iff facts ∧ (L <= -1) is infeasible
         return _fm_infeasible(self._system(extra=[-L - 1]))
@@ -583,13 +588,6 @@ class Facts:
                 r = self._mod_eq(r)
                 if self._all_nonneg(r):
                     return True
-        for i, g in enumerate(cands):
-            for h in cands[i:]:
-                for l1 in (1, 2, 4, 8):
-                    for l2 in (1, 2, 4, 8):
-                        r = self._mod_eq(L - g.scale(l1) - h.scale(l2))
-                        if self._all_nonneg(r):
-                            return True
         r = self._mod_eq(L)
         return self._all_nonneg(r)
 
